@@ -361,7 +361,20 @@ class Behavior(_IModel):
         relaxes and moves time on — calling it to *read* a stress would step a
         rate-dependent material forward again.
         """
-        eps6_e_pg = self.Compute_strain_6d(eps_e_pg, z_e_pg, 0.0)
+        if self.dim == 2 and self.planeStress:
+            # The state is given, so sig_zz is affine in eps_zz: no local solve (which
+            # would let the material flow, and needs a time step) is involved.
+            eps_e_pg = FeArray.asfearray(eps_e_pg)
+            if z_e_pg is None:
+                z_e_pg = self.State_zeros(*eps_e_pg.shape[:2])
+            eps6_e_pg = FeArray.zeros(*eps_e_pg.shape[:2], 6, dtype=float)
+            eps6_e_pg[..., IDX_2D] = eps_e_pg
+            sig0_zz = self.Compute_sigma(eps6_e_pg, z_e_pg)[..., ZZ]
+            eps6_e_pg[..., ZZ] = 1.0
+            sig1_zz = self.Compute_sigma(eps6_e_pg, z_e_pg)[..., ZZ]
+            eps6_e_pg[..., ZZ] = -sig0_zz / (sig1_zz - sig0_zz)
+        else:
+            eps6_e_pg = self.Compute_strain_6d(eps_e_pg, z_e_pg, 0.0)
         sig6_e_pg = self.Compute_sigma(eps6_e_pg, z_e_pg)
         if self.dim == 3:
             return sig6_e_pg
